@@ -256,6 +256,11 @@ def run_property(pid, tier, seed):
                 broken.append("leanchecker rejected " + mod)
 
     # ---- implementation side
+    for cwd, cmd in cfg.get("prebuild", []):
+        with Lock("cargo"):
+            rc, o = sh(cmd, cwd=cwd, timeout=3600)
+        if rc != 0:
+            broken.append("prebuild failed (%s): %s" % (" ".join(cmd), o[-400:]))
     ok, out = build_harness()
     if not ok:
         errs = [l for l in out.split("\n") if l.startswith("error")][:5]
@@ -385,7 +390,13 @@ def setup():
     print(out[-2000:])
     ok2, out2 = build_harness()
     print(out2[-1000:])
-    return 0 if (ok and ok1 and ok2) else 1
+    ok3 = True
+    for pid, cfg in PROPS.items():
+        for cwd, cmd in cfg.get("prebuild", []):
+            rc, o = sh(cmd, cwd=cwd, timeout=3600)
+            print(o[-500:])
+            ok3 = ok3 and rc == 0
+    return 0 if (ok and ok1 and ok2 and ok3) else 1
 
 
 def replay(path):
